@@ -1,2 +1,37 @@
-From AB Require Import Store.
-Theorem C02_placeholder : True. Proof. exact I. Qed.
+(* C02 - changing one token changes only that token's characters.
+   `set_text` models Token._update_raw_text (which calls TokenStore.update for a token in a store). *)
+From AB Require Import StoreTop StoreRun.
+
+(* the sequence of tokens (identity and order) is unchanged, the token has the new text, every other
+   token keeps its text; holds for tokens in the store and for free tokens *)
+Theorem C02_update_frame : forall s t x s' r, Inv s -> set_text s t x = (s', r) ->
+  r = Ok tt /\ Inv s' /\ abs s' = abs s /\ (forall u, hnd s' u = hnd s u) /\ txt s' t = x /\
+  (forall u, u <> t -> txt s' u = txt s u).
+Proof. exact set_text_spec. Qed.
+
+(* hence the printed text changes exactly inside that token's span *)
+Theorem C02_printed_text : forall s t x s' r k, Inv s -> nth_error (abs s) k = Some t -> set_text s t x = (s', r) ->
+  let pre := prefix_text s k in
+  let post := concat (map (txt s) (skipn (S k) (abs s))) in
+  printed s = pre ++ txt s t ++ post /\ printed s' = pre ++ x ++ post.
+Proof. exact set_text_printed. Qed.
+
+Example C02_update_nonvacuous : Inv ex_s /\ nth_error (abs ex_s) 4 = Some 5%positive /\ txt ex_s 5 = [97; 10; 98].
+Proof. split; [exact (proj1 ex_inv)|]. split; [rewrite (proj2 ex_inv); reflexivity|vm_compute; reflexivity]. Qed.
+
+(* sequences of assignments *)
+Theorem C02_assignments : forall l s, Inv s ->
+  Inv (assign_all s l) /\ abs (assign_all s l) = abs s /\
+  (forall u, txt (assign_all s l) u = texts_after (txt s) l u).
+Proof. exact assign_all_spec. Qed.
+
+Example C02_assignments_nonvacuous : Inv ex_s /\
+  texts_after (txt ex_s) [(2%positive, [120]); (5%positive, [10; 10]); (2%positive, [])] 2%positive = [].
+Proof. split; [exact (proj1 ex_inv)|vm_compute; reflexivity]. Qed.
+
+(* structural edits never change any text *)
+Theorem C02_splice_keeps_texts : forall LF s tokens ref del_end p q s' r,
+  1 <= LF -> Inv s -> ref_pos (abs s) ref p -> end_pos (abs s) del_end p q ->
+  valid_tokens (abs s) tokens p q ->
+  splice LF s tokens ref del_end = (s', r) -> forall t, txt s' t = txt s t.
+Proof. intros LF s tokens ref del_end p q s' r H1 H2 H3 H4 H5 H6. exact (proj2 (proj2 (proj2 (splice_spec LF s tokens ref del_end p q s' r H1 H2 H3 H4 H5 H6)))). Qed.
